@@ -6,7 +6,7 @@ From VB Require Import Classes Consts Common C17.
 Local Open Scope Z_scope.
 
 Definition fresh_defined (c : Z) : bool :=
-  forallb (fun f => is_defined (fresh cs c f)) (wfields (prog_of cs c M_write)).
+  forallb (fun f => is_defined (fresh cs c f)) (emit_fields (prog_of cs c M_write)).
 
 Lemma fresh_defined_all_b : forallb fresh_defined (minus object_classes init_exceptions) = true.
 Proof. vm_compute. reflexivity. Qed.
@@ -21,5 +21,5 @@ Proof.
 Qed.
 
 (* non-vacuity: the write programs do emit members *)
-Example wfields_nonempty : forallb (fun c => negb (Nat.eqb (length (wfields (prog_of cs c M_write))) 0)) object_classes = true.
+Example emit_fields_nonempty : forallb (fun c => negb (Nat.eqb (length (emit_fields (prog_of cs c M_write))) 0)) object_classes = true.
 Proof. vm_compute. reflexivity. Qed.
